@@ -1089,7 +1089,7 @@ example : ∃ s' hj', Spec.stepSimple exS (.mvG 5 0) = some (s', "ok") ∧ aget 
     owns the source, or — for a `trackable_signal` — the destination; `hown` excludes exactly that -/
 theorem masgG_transfers (s : LSt) (j i : Nat) (d h0 : Handle) (hj : aget s.G j = some d) (hi : aget s.G i = some h0)
     (hne : j ≠ i) (hfl : d.fl = h0.fl) (hlvl : d.lvl = h0.lvl) (hacc : h0.fl.isAcc = false)
-    (hown : (s.ownedG.any (fun p => p.2 = i) || (h0.fl.isTrackable && s.ownedG.any (fun p => p.2 = j))) = false) :
+    (hown : (s.ownedG.any (fun p => p.2 = i) || s.ownedG.any (fun p => p.2 = j)) = false) :
     ∃ s', Spec.stepSimple s (.masgG j i) = some (s', "ok") ∧ aget s'.G j = some { d with impl := h0.impl } ∧
       aget s'.G i = some { h0 with impl := none } := by
   have hnf : ¬ (d.fl ≠ h0.fl) := fun h => h hfl
@@ -1386,7 +1386,7 @@ example : Spec.stepSimple { exS with ownedG := [(30, 1)] } (.delG 1) = some ({ e
     `trackable_signal` — the destination: the complement of the hypothesis `hown` of `masgG_transfers` -/
 theorem masgG_owned_refused (s : LSt) (j i : Nat) (d h0 : Handle) (hj : aget s.G j = some d) (hi : aget s.G i = some h0)
     (hfl : d.fl = h0.fl) (hlvl : d.lvl = h0.lvl) (hacc : h0.fl.isAcc = false)
-    (hown : (s.ownedG.any (fun p => p.2 = i) || (h0.fl.isTrackable && s.ownedG.any (fun p => p.2 = j))) = true) :
+    (hown : (s.ownedG.any (fun p => p.2 = i) || s.ownedG.any (fun p => p.2 = j)) = true) :
     Spec.stepSimple s (.masgG j i) = some (s, "owned") := by
   have hnf : ¬ (d.fl ≠ h0.fl) := fun h => h hfl
   have hnl : ¬ (d.lvl ≠ h0.lvl) := fun h => h hlvl
